@@ -504,6 +504,38 @@ def hierarchy_scenario(rng) -> List[Unit]:
     return units
 
 
+def alias_scenario(rng) -> List[Unit]:
+    """a package that publishes classes of its sub-modules by ASSIGNMENT after a plain import
+    (`import pk.impl` / `Thing = pk.impl.Thing`, or `from pk import impl` / `Thing = impl.Thing`), consumers that
+    derive from the published name; sibling names chosen so that the consumer sorts before and after the definer"""
+    pk = rng.choice(["pk", "lib"])
+    impl = rng.choice(["impl", "zimpl", "_impl"])
+    cons = rng.choice(["aaa", "use", "zzz"])
+    form = rng.choice(["plain", "plain", "from", "as"])
+    if form == "plain":
+        init = ["import %s.%s" % (pk, impl), "Thing = %s.%s.Thing" % (pk, impl)]
+    elif form == "from":
+        init = ["from %s import %s" % (pk, impl), "Thing = %s.Thing" % impl]
+    else:
+        init = ["import %s.%s as _m" % (pk, impl), "Thing = _m.Thing"]
+    if rng.random() < 0.5:
+        init.append("Other = Thing")
+    base = rng.choice(["Thing", "Thing", "Other"]) if "Other = Thing" in init else "Thing"
+    implsrc = ["class Root(%s):" % rng.choice(["Exception", "object", "dict"]), "    def hook(self):", "        'hook doc'",
+               "class Thing(Root):", "    'thing doc'", "    level = 1"]
+    cimp = rng.choice(["from %s import %s" % (pk, base), "import %s" % pk, "from %s import %s as T" % (pk, base)])
+    bexpr = base if cimp.startswith("from") and " as " not in cimp else ("T" if " as T" in cimp else "%s.%s" % (pk, base))
+    conssrc = [cimp, "class Special(%s):" % bexpr, "    def hook(self):", "        pass", "    level = 2"]
+    units = [Unit(pk, True, "\n".join(init) + "\n", None),
+             Unit("%s.%s" % (pk, impl), False, "\n".join(implsrc) + "\n", pk)]
+    if rng.random() < 0.5:
+        units.append(Unit("%s.%s" % (pk, cons), False, "\n".join(conssrc) + "\n", pk))
+    else:
+        top = Unit(rng.choice(["app", "zapp"]), False, "\n".join(conssrc) + "\n", None)
+        units = ([top] + units) if rng.random() < 0.5 else (units + [top])
+    return units
+
+
 def run(ctx: Ctx) -> None:
     from .c07 import gen_project as reexport_project
     nproj = 200 if ctx.quick else 2500
@@ -521,6 +553,9 @@ def run(ctx: Ctx) -> None:
         elif i % 8 in (1, 6):
             units = hierarchy_scenario(ctx.rng)
             ctx.count("projects:plain-import-hierarchy-scenario")
+        elif i % 16 == 2:
+            units = alias_scenario(ctx.rng)
+            ctx.count("projects:assignment-alias-scenario")
         else:
             g = Gen(ctx.rng, Knobs(max_modules=5 if ctx.quick else 7, reexport=0.3, star=0.25, single_reexporter=True))
             units = g.project()
